@@ -30,7 +30,8 @@ SIZE_BOUNDS = {"quick": "1-3 disjoint groups, <= 25 schedule operations", "thoro
 RULE = {
     "C14": (
         "Hypothesis-generated schedules over 1-3 disjoint component groups: request(group) carrying a running number, bursts "
-        "of requests without a barrier in between, complete(group, ok | raise) acting on that group's in-flight call, settle. "
+        "of requests without a barrier in between, complete(group, ok | raise) acting on that group's in-flight call and "
+        "optionally NOT followed by a barrier (so the next requests race with the completion callback), settle. "
         "The ComponentManager is a probe (substituted for BatteryManager inside the power_distributing module) whose "
         "distribute_power awaits a future the harness resolves. Oracle: per group a reference (in flight, pending) model; after "
         "every barrier the sequence of entered requests equals the model's (so a request for an idle group is entered at once "
@@ -41,10 +42,10 @@ RULE = {
     )
 }
 ASSUMPTIONS = [
-    "a completion is followed by a barrier before the next request (a completion racing with a burst has two legal outcomes)",
+    "a completion not followed by a barrier may be handled before or after each request of the following burst: the model forks and the trace must match one branch",
     "the probe manager replaces BatteryManager inside the power_distributing module (unittest.mock)",
 ]
-MIN_LABELS = {"C14": {"pending_overwritten_twice": 0.1, "exception_with_pending": 0.05, "multi_group": 0.4}}
+MIN_LABELS = {"C14": {"pending_overwritten_twice": 0.1, "exception_with_pending": 0.05, "multi_group": 0.4, "request_races_completion": 0.1}}
 
 GROUPS = [frozenset({1, 2}), frozenset({3}), frozenset({4, 5, 6})]
 
@@ -56,7 +57,7 @@ def strategy(tier: str, pid: str = "C14") -> st.SearchStrategy[Any]:
         st.tuples(st.just("req"), st.integers(0, 2), st.booleans()).map(list),
         st.tuples(st.just("req"), st.integers(0, 2), st.booleans()).map(list),
         st.tuples(st.just("req"), st.integers(0, 2), st.just(True)).map(list),
-        st.tuples(st.just("done"), st.integers(0, 2), st.sampled_from([True, True, False])).map(list),
+        st.tuples(st.just("done"), st.integers(0, 2), st.sampled_from([True, True, False]), st.booleans()).map(list),
         st.just(["settle"]),
     )
     return st.fixed_dictionaries({"ngroups": st.integers(1, 3), "ops": st.lists(op, min_size=3, max_size=max_ops)})
@@ -98,12 +99,26 @@ def run_case(case: Any, pid: str) -> Verdict:
                 active[g] -= 1
                 trace.append(("exit", g, request.power.as_watts()))
 
-    model: dict[int, list[Any]] = {g: [None, None] for g in range(3)}  # [in flight, pending]
-    expected: dict[int, list[float]] = {g: [] for g in range(3)}
-    stats = {"overwrites": {g: 0 for g in range(3)}, "exc_with_pending": False}
+    # Reference model, per group a set of candidate states (in flight, pending, completion due, entered so far).
+    # A completion that is not followed by a barrier may be handled before or after each request of the
+    # following burst; both orders are legal, so the model forks and the observed trace must match one branch.
+    cands: dict[int, set[tuple[Any, Any, bool, tuple[float, ...]]]] = {g: {(None, None, False, ())} for g in range(3)}
+    stats: dict[str, Any] = {"overwrites": {g: 0 for g in range(3)}, "exc_with_pending": False, "race": False, "max": 0}
 
     def entered(g: int) -> list[float]:
         return [val for ev, gg, val in trace if ev == "enter" and gg == g]
+
+    def complete(c: tuple[Any, Any, bool, tuple[float, ...]]) -> tuple[Any, Any, bool, tuple[float, ...]]:
+        infl, pend, _, exp = c
+        if pend is not None:
+            return (pend, None, False, exp + (pend,))
+        return (None, None, False, exp)
+
+    def request(c: tuple[Any, Any, bool, tuple[float, ...]], n: float) -> tuple[Any, Any, bool, tuple[float, ...]]:
+        infl, pend, due, exp = c
+        if infl is None:
+            return (n, None, due, exp + (n,))
+        return (infl, n, due, exp)
 
     async def scenario() -> None:
         requests: Any = Broadcast(name="requests")
@@ -119,14 +134,19 @@ def run_case(case: Any, pid: str) -> Verdict:
             counter = 0
             last_issued: dict[int, float] = {}
 
-            def compare(where: str) -> bool:
-                for g in range(ngroups):
-                    if entered(g) != expected[g]:
-                        v.fail(f"{where}: group {g} entered {entered(g)}, the (in flight, pending) model expects {expected[g]}")
-                        return False
+            def barrier_compare(where: str) -> bool:
                 if any(ev == "overlap" for ev, _, _ in trace):
                     v.fail(f"{where}: two distribute_power calls of one group in flight at once: {trace}")
                     return False
+                for g in range(ngroups):
+                    settled = {complete(c) if c[2] else c for c in cands[g]}
+                    got = tuple(entered(g))
+                    keep = {c for c in settled if c[3] == got}
+                    if not keep:
+                        v.fail(f"{where}: group {g} entered {list(got)}; the (in flight, pending) model allows "
+                               f"{sorted(list(c[3]) for c in settled)}")
+                        return False
+                    cands[g] = keep
                 return True
 
             for step, op in enumerate(case["ops"]):
@@ -134,22 +154,25 @@ def run_case(case: Any, pid: str) -> Verdict:
                 if op[0] == "req":
                     g = op[1] % ngroups
                     counter += 1
-                    await sender.send(Request(power=Power.from_watts(float(counter)), component_ids=set(GROUPS[g])))
-                    last_issued[g] = float(counter)
-                    if model[g][0] is None:
-                        model[g][0] = float(counter)
-                        expected[g].append(float(counter))
-                    else:
-                        if model[g][1] is not None:
+                    n = float(counter)
+                    await sender.send(Request(power=Power.from_watts(n), component_ids=set(GROUPS[g])))
+                    last_issued[g] = n
+                    nxt = set()
+                    for c in cands[g]:
+                        if c[2]:
+                            stats["race"] = True
+                            nxt.add(request(complete(c), n))
+                        if c[0] is not None and c[1] is not None:
                             stats["overwrites"][g] += 1
-                            stats["max"] = max(stats.get("max", 0), stats["overwrites"][g])
-                        model[g][1] = float(counter)
+                            stats["max"] = max(stats["max"], stats["overwrites"][g])
+                        nxt.add(request(c, n))
+                    cands[g] = nxt
                     if op[2]:
                         continue  # burst: no barrier
                 elif op[0] == "done":
                     g = op[1] % ngroups
                     await world.settle()
-                    if not compare(where + " (before completion)"):
+                    if not barrier_compare(where + " (before completion)"):
                         return
                     if gates.get(g):
                         fut = gates[g].pop(0)
@@ -157,14 +180,14 @@ def run_case(case: Any, pid: str) -> Verdict:
                             fut.set_result(None)
                         else:
                             fut.set_exception(RuntimeError("generated distribution failure"))
-                            if model[g][1] is not None:
+                            if any(c[1] is not None for c in cands[g]):
                                 stats["exc_with_pending"] = True
-                        model[g][0], model[g][1] = model[g][1], None
                         stats["overwrites"][g] = 0
-                        if model[g][0] is not None:
-                            expected[g].append(model[g][0])
+                        cands[g] = {(c[0], c[1], True, c[3]) for c in cands[g]}
+                        if len(op) > 3 and not op[3]:
+                            continue  # no barrier: the following requests race with the completion callback
                 await world.settle()
-                if not compare(where):
+                if not barrier_compare(where):
                     return
                 if not actor.is_running:
                     v.fail(f"{where}: the PowerDistributingActor stopped running")
@@ -172,22 +195,24 @@ def run_case(case: Any, pid: str) -> Verdict:
             # bounded "eventually": release everything until quiescent
             for _ in range(200):
                 await world.settle()
+                if not barrier_compare("while releasing completions"):
+                    return
                 busy = [g for g in range(ngroups) if gates.get(g)]
                 if not busy:
                     break
                 for g in busy:
                     gates[g].pop(0).set_result(None)
-                    model[g][0], model[g][1] = model[g][1], None
-                    if model[g][0] is not None:
-                        expected[g].append(model[g][0])
+                    cands[g] = {(c[0], c[1], True, c[3]) for c in cands[g]}
             await world.settle()
-            if compare("after releasing every completion"):
+            if barrier_compare("after releasing every completion"):
                 for g, val in last_issued.items():
                     if not entered(g) or entered(g)[-1] != val:
                         v.fail(f"the last request issued for group {g} ({val}) was never applied; entered {entered(g)}")
             await actor.stop()
 
     world.run(scenario)
+    if stats["race"]:
+        v.labels.add("request_races_completion")
     if stats.get("max", 0) >= 2:
         v.labels.add("pending_overwritten_twice")
     if stats["exc_with_pending"]:
